@@ -77,7 +77,10 @@ theorem class_serialize_pure_json (O : Oracles) (c : ClassOpts) (fields : List (
   simp [serialize, ser, sInst, hfil, g1]
 
 /-- **C05 (class level)**: for every class declaration and every instance of the fragment —
-    nested Structure classes and `Optional` fields at any depth, unset optional fields included —
+    nested Structure classes and `Optional` / distinguishable `AnyOf` fields at any depth, unset optional fields
+    included, and — as attributes of a class at any level — ImmutableSet and StructureReference fields, whose stored
+    form (frozenset, instance of the inline class) differs from what the deserializer hands to the constructor
+    (`attrSpecial`, `attr_special_rt2`) —
     `Serializer(x).serialize()` is a pure-JSON object and `Deserializer(cls).deserialize` of it
     returns exactly `x`, for every setting of the deserialization flags -/
 theorem class_round_trip_partial (O : Oracles) (opts : DeserOpts) (c : ClassOpts)
@@ -227,6 +230,35 @@ theorem anyof_round_trip_example :
     ∧ inFragAny exO [.seqOf .list (.integer {}) {}, .setOf false (.integer {}) {}] (.set false [.int 1]) = false := by
   decide
 
+/-- a class with an ImmutableSet attribute and a StructureReference attribute (its inline class holding an
+    ImmutableSet itself), nested in another class: the stored forms (frozenset, instance of the inline
+    class) are not what the deserializer hands to the constructor (set, dict), and still the round trip
+    returns exactly the instance -/
+def exSpecial : FieldDecl :=
+  .struct { name := "Sp", required := ["tags"], accepts := ["Sp"], addl := false }
+    [("tags", .setOf true (.string none none none) { max := some 3 }),
+     ("pos", .struct { name := "StructureReference_1", required := ["x"], addl := false, inline := true }
+        [("x", .integer {}), ("marks", .setOf true (.integer {}) {})] [])] []
+def exSpecialOuter : FieldDecl :=
+  .struct { name := "SpO", required := ["sp"], accepts := ["SpO"] } [("sp", exSpecial), ("n", .integer {})] []
+def exSpecialInst : PyVal :=
+  .inst "SpO" [("sp", .inst "Sp" [("tags", .set true [.str "a", .str ""]),
+      ("pos", .inst "StructureReference_1" [("x", .int 0), ("marks", .set true [.int 2])])]), ("n", .int 1)]
+
+theorem immutable_set_and_reference_example :
+    inFrag exO exSpecialOuter exSpecialInst = true
+    ∧ (match serialize exO exSpecialOuter exSpecialInst with
+        | .ok (.dict [(.str "sp", .dict [(.str "tags", .list [.str "a", .str ""]),
+              (.str "pos", .dict [(.str "x", .int 0), (.str "marks", .list [.int 2])])]), (.str "n", .int 1)]) => true
+        | _ => false) = true
+    ∧ (match serialize exO exSpecialOuter exSpecialInst with
+        | .ok j => (match deserialize exO {} exSpecialOuter j with
+            | .ok (.inst "SpO" [("sp", .inst "Sp" [("tags", .set true [.str "a", .str ""]),
+                ("pos", .inst "StructureReference_1" [("x", .int 0), ("marks", .set true [.int 2])])]), ("n", .int 1)]) => true
+            | _ => false)
+        | .error _ => false) = true := by
+  decide
+
 theorem class_round_trip_example :
     inFrag exO exOuter exInst = true
     ∧ (match serialize exO exOuter exInst with
@@ -314,7 +346,7 @@ theorem class_round_trip_extras_partial (O : Oracles) (opts : DeserOpts) (c : Cl
   obtain ⟨⟨⟨hinl, hacc⟩, hnd⟩, ⟨_, hreq⟩, hcan⟩ := hf
   have hinl' : c.inline = false := by simpa using hinl
   have hnd' : (fields.map (·.1)).Nodup := by simpa using hnd
-  rcases rt_fields O opts c defaults fields attrs hnd' hcan with ⟨kw, g1, g2, g3, g4, g5⟩
+  rcases rt_fields O opts c defaults fields attrs hnd' hcan with ⟨kw, args, g1, g2, g3, ga, g4, g5⟩
   have hnames := canonAttrs_names O c defaults fields attrs hcan
   have hnn := canonAttrs_nonNone O c defaults fields attrs hcan
   rcases c05_ser_extras O fields ex hex with ⟨e1, e2⟩
@@ -351,7 +383,13 @@ theorem class_round_trip_extras_partial (O : Oracles) (opts : DeserOpts) (c : Cl
   · simp only [serialize, ser, sInst, beq_self_eq_true, Bool.true_or, Bool.not_true, Bool.false_eq_true,
       if_false, hfil, hser, bindE_ok, hpairs]
   · -- deserialization
-    have hdf : deserFields O opts c (ex ++ kw) fields false = .ok attrs := by
+    have hargnames : ∀ a ∈ args, a.1 ∈ fields.map (·.1) := by
+      intro a ha
+      have : a.1 ∈ args.map (·.1) := List.mem_map_of_mem ha
+      rw [ga] at this
+      rcases List.mem_map.mp this with ⟨b, hb, hab⟩
+      rw [← hab]; exact hnames b hb
+    have hdf : deserFields O opts c (ex ++ kw) fields false = .ok args := by
       rw [deserFields_congr O opts c (ex ++ kw) kw fields false
         (fun m hm => c05_lookup_skip m ex kw (hdisj m hm))]
       exact g4
@@ -365,26 +403,27 @@ theorem class_round_trip_extras_partial (O : Oracles) (opts : DeserOpts) (c : Cl
           && (c.addl || !opts.ignoreInvalidAddl)) = [] :=
         List.filter_eq_nil_iff.mpr (fun a ha => by simp [hkwnames a ha])
       rw [h1, h2]; simp
-    have hvf : validateFields O c defaults (ex ++ attrs) fields = .ok attrs := by
-      rw [validateFields_congr O c defaults (ex ++ attrs) attrs fields
-        (fun m hm => c05_lookup_skip m ex attrs (hdisj m hm))]
+    have hvf : validateFields O c defaults (ex ++ args) fields = .ok attrs := by
+      rw [validateFields_congr O c defaults (ex ++ args) args fields
+        (fun m hm => c05_lookup_skip m ex args (hdisj m hm))]
       exact g5
-    have hxo : extrasOf c (fields.map (·.1)) (ex ++ attrs) = ex := by
+    have hxo : extrasOf c (fields.map (·.1)) (ex ++ args) = ex := by
       unfold extrasOf
       rw [List.filter_append]
       have h1 : ex.filter (fun a => !(fields.map (·.1)).contains a.1 && !(a.2.isNone && c.ignoreNone)) = ex :=
         List.filter_eq_self.mpr (fun a ha => by rw [(hexn a ha).1, (hexn a ha).2]; simp)
-      have h2 : attrs.filter (fun a => !(fields.map (·.1)).contains a.1 && !(a.2.isNone && c.ignoreNone)) = [] :=
-        List.filter_eq_nil_iff.mpr (fun a ha => by simp [hnames a ha])
+      have h2 : args.filter (fun a => !(fields.map (·.1)).contains a.1 && !(a.2.isNone && c.ignoreNone)) = [] :=
+        List.filter_eq_nil_iff.mpr (fun a ha => by simp [hargnames a ha])
       rw [h1, h2]; simp
-    have hbind : bindOk c (fields.map (·.1)) (ex ++ attrs) = true := by
+    have hbind : bindOk c (fields.map (·.1)) (ex ++ args) = true := by
       unfold bindOk
       simp only [hadd, Bool.not_true, Bool.false_and, Bool.not_false, Bool.and_true, Bool.not_eq_true',
         List.any_eq_false]
       intro r hr
       have := (List.all_eq_true.mp hreq) r hr
+      rw [← rt_lookup_isSome_names r args attrs ga] at this
       rw [lookup_append]
-      cases h1 : lookup r ex <;> cases h2 : lookup r attrs <;> simp [h2] at this ⊢
+      cases h1 : lookup r ex <;> cases h2 : lookup r args <;> simp [h2] at this ⊢
     have hk : kwOfDict ((ex ++ kw).map rt_toPair) = some (ex ++ kw) := rt_kwOfDict_map _
     simp only [deserialize, dClassRef, hk]
     simp [hdf, hde, vConstruct, hbind, hvf, hxo]
@@ -406,6 +445,60 @@ theorem class_round_trip_extras_example :
         | .error _ => false) = true := by
   decide
 
+
+/-! ### attributes holding None -/
+
+/-- **attributes holding None** (an Optional field given None explicitly, with or without `_ignore_none`):
+    they are not serialized, and the round trip gives back the instance with those attributes unset — which
+    reads the same (`x.f is None` either way).  `attrsN` = the instance's attributes, `attrs` = the ones that
+    are not None. -/
+theorem class_round_trip_none_attrs_partial (O : Oracles) (opts : DeserOpts) (c : ClassOpts)
+    (fields : List (String × FieldDecl)) (defaults attrsN attrs : List (String × PyVal))
+    (hN : attrsN.filter (fun a => !a.2.isNone) = attrs)
+    (hf : inFrag O (.struct c fields defaults) (.inst c.name attrs) = true) :
+    ∃ j, serialize O (.struct c fields defaults) (.inst c.name attrsN) = .ok j ∧ isJson j = true
+      ∧ deserialize O opts (.struct c fields defaults) j = .ok (.inst c.name attrs) := by
+  rcases class_round_trip_partial O opts c fields defaults (.inst c.name attrs) hf with ⟨j, h1, h2, h3⟩
+  refine ⟨j, ?_, h2, h3⟩
+  have hff : attrs.filter (fun a => !a.2.isNone) = attrs := by
+    rw [← hN, List.filter_filter]; simp
+  simp only [serialize, ser, sInst, beq_self_eq_true, Bool.true_or, Bool.not_true, Bool.false_eq_true,
+    if_false, hN] at h1 ⊢
+  rw [hff] at h1
+  exact h1
+
+theorem class_round_trip_none_attrs_example :
+    (match serialize exO exInner (.inst "Inner" [("a", .int 5), ("b", .none)]) with
+      | .ok (.dict [(.str "a", .int 5)]) => true | _ => false) = true
+    ∧ (match deserialize exO {} exInner (.dict [(.str "a", .int 5)]) with
+      | .ok (.inst "Inner" [("a", .int 5)]) => true | _ => false) = true := by
+  decide
+
+
+/-! ### known finding: Map with non-string keys through JSON text -/
+
+/-- **Known finding (`text-roundtrip-fails:map-key:integer`), kernel-checked on the model.**  The round-trip
+    theorems above are about the Python document `Serializer(x).serialize()` returns.  A Map with Integer keys
+    serializes to an object whose keys are ints; it lies inside `inFrag` (String or Integer keys), so the round
+    trip of the PYTHON document is proved; but `json.loads(json.dumps(doc))` (`jsonRound`) turns the keys into
+    strings, which the Integer key field then refuses — the round trip through JSON TEXT fails. -/
+theorem map_int_keys_text_counterexample :
+    let cls : FieldDecl := .struct { name := "A", required := ["m"], accepts := ["A"] }
+      [("m", .mapOf (.integer {}) (.string none none none) {})] []
+    let x : PyVal := .inst "A" [("m", .dict [(.int 1, .str "a")])]
+    inFrag exO cls x = true
+    ∧ (match serialize exO cls x with
+        | .ok j => (match deserialize exO {} cls j with
+            | .ok (.inst "A" [("m", .dict [(.int 1, .str "a")])]) => true       -- the Python document round-trips
+            | _ => false)
+          && (match jsonRound j with
+            | some (.dict [(.str "m", .dict [(.str "1", .str "a")])]) => true    -- json text: the key is now "1"
+            | _ => false)
+          && (match (jsonRound j).map (deserialize exO {} cls) with
+            | some (.error .typeErr) => true                                      -- … and is refused
+            | _ => false)
+        | .error _ => false) = true := by
+  decide
 
 /-! ### the extension kinds (Sem/SerdeX.lean): DecimalNumber, Enum by value, DateField / DateTime -/
 
